@@ -120,6 +120,9 @@ func c01Query(x *fleetExec, e engine.Event, nd *knode, oracle string) {
 type hookC11 struct{ noHook }
 
 func (hookC11) query(x *fleetExec, e engine.Event, nd *knode) {
+	if nd.tainted {
+		return // the result of a unit change: its weights are no longer exactly known (C17 describes it)
+	}
 	sig := x.sigFor(e)
 	items := nd.model.Sorted(nd.mapping.MinIndexableValue())
 	if len(items) == 0 {
